@@ -1357,7 +1357,9 @@ impl Checker {
             }
         };
 
-        let resolved_path = working_dir.join(path);
+        // Normalized, so that a file reached through `..` is the same cache key and the
+        // same entry of the import stack as when it is reached directly.
+        let resolved_path = crate::path::normalize(working_dir.join(path));
 
         // Check the cache first
         if let Some(cached) = self.shape_cache.borrow().get(&resolved_path) {
